@@ -179,6 +179,9 @@ type Exec struct {
 	atomicVals   map[string]Value
 	rawQueries   map[string]*reqInfo
 	bufAliases   map[*Cell][]*BytesV
+	pools        map[string][]Value
+	confirms     int
+	confirmed    int
 	poolSeq      int
 }
 
@@ -195,7 +198,7 @@ func (e *Engine) NewExec(solver *Portfolio, decisions []int8) *Exec {
 		contracts: map[string]bool{}, xmlTokens: map[string]*xmlToken{},
 		timeStrs: map[string]*timeStr{}, certs: map[string]*certInfo{},
 		strAttrs: map[string]map[string]bool{}, reqs: map[*Cell]*reqInfo{}, urlInfos: map[*Cell]*urlInfo{},
-		urlParts: map[string][]*Term{}, knownLen: map[string]*Term{}, onceDone: map[string]bool{}, syncMaps: map[string]*MapObj{}, atomicVals: map[string]Value{}, rawQueries: map[string]*reqInfo{}, bufAliases: map[*Cell][]*BytesV{}, forkSites: map[string]int{}, pcSyms: map[string]bool{}, pcKeys: map[string]bool{}, renders: map[string]*renderInfo{}, sigCtx: map[*Cell]*sigCtxInfo{}, privKeys: map[*Cell]*Term{},
+		urlParts: map[string][]*Term{}, knownLen: map[string]*Term{}, onceDone: map[string]bool{}, syncMaps: map[string]*MapObj{}, atomicVals: map[string]Value{}, rawQueries: map[string]*reqInfo{}, bufAliases: map[*Cell][]*BytesV{}, pools: map[string][]Value{}, forkSites: map[string]int{}, pcSyms: map[string]bool{}, pcKeys: map[string]bool{}, renders: map[string]*renderInfo{}, sigCtx: map[*Cell]*sigCtxInfo{}, privKeys: map[*Cell]*Term{},
 	}
 }
 
